@@ -137,6 +137,10 @@ def gen_scenario(rng, ranks=None, kernels=None, host=None, wraps=True, be_ratio=
                     phases.insert(0, ("DmaI", 0, 1, TID_DMAI))
                 if gaps[3] > 0 and rng.random() < 0.5:
                     phases.append(("DmaO", 3, 4, TID_DMAO))
+                if rng.random() < 0.06:
+                    # the same Exec interval logged on a second stream as well (two compute streams starting together):
+                    # two Exec slices of one rank with the same host time
+                    phases.append(("Cmpt Exec", 2, 3, TID_OTHER))
                 if rng.random() < 0.12:
                     phases = [("", 0, 4, TID_OTHER)]       # "other" device event: whole TS1..TS5 span
                 for (kw, a, b, tid) in phases:
